@@ -155,7 +155,8 @@ func main() {
 	runGenerators() // generator polynomials through unit vectors
 	runECC()
 	runECCSpecial()
-	runECCRegister() // parity + interleaving, vector families
+	runECCRegister()
+	runECCHistories() // parity + interleaving, vector families
 	if !chk.Quick() {
 		runECCValues()
 	}
@@ -179,6 +180,9 @@ func replay(c rcase) {
 		if s, ok := symBySize(c.Rows, c.Cols); ok {
 			eccCase(l, s, c.Index)
 		}
+	case "ecch":
+		fmt.Println("replay of a call history re-runs the history family")
+		runECCHistories()
 	case "eccr":
 		if s, ok := symBySize(c.Rows, c.Cols); ok {
 			eccRegisterCase(l, s, c.Index, c.N)
